@@ -18,6 +18,9 @@ def check_L1(report, facts, rule):
             n += 1
             adv_before = [a for a in r['acc'].advances if a[4] < idx]
             ok = val == ('lv', pa.pos_var) and not adv_before and key == ('attr', pa.item, 'name')
+            if not ok and not plain_offset_value(val):
+                # recorded from something the rules do not see through (the field of a helper object, a call): no verdict
+                raise AnalysisError('resolve_labels: a label is recorded as {}, which is not followed back to the running offset'.format(show(val)[:80]))
             report.check(ok, rule, 'labels[item.name] = offset reached so far',
                          lambda node=node, val=val: Finding(rule, 'resolve_labels', node,
                                                             'a label is recorded as {} instead of the running offset at its definition'.format(show(val)), line=node.lineno))
@@ -28,15 +31,47 @@ def check_L1(report, facts, rule):
     report.count('label definition sites', n)
     # position starts at 0
     fn = facts.funcs['resolve_labels']
-    report.check(pa.pos_var is not None, rule, 'offset counting starts at 0',
-                 lambda: Finding(rule, 'resolve_labels', fn, 'no running offset that starts at 0 and advances by the size of each item', line=fn.lineno))
+    require_offset_from_zero(report, pa, fn, rule, 'resolve_labels', 'offset counting starts at 0',
+                             'no running offset that starts at 0 and advances by the size of each item')
+
+
+def plain_offset_value(v):
+    """A value built from local variables and integer constants by + / - only."""
+    if is_const(v):
+        return isinstance(v[1], int)
+    if v[0] in ('lv', 'havoc'):
+        return True
+    if v[0] == 'bin' and v[1] in ('+', '-'):
+        return plain_offset_value(v[2]) and plain_offset_value(v[3])
+    return False
+
+
+def require_offset_from_zero(report, pa, fn, rule, fname, text, message):
+    """The pass keeps a running offset that starts at 0.  A counter that visibly starts elsewhere is a finding; a pass whose
+    bookkeeping is not a local counter at all (a helper object, a closure) is not understood: no verdict."""
+    if pa.pos_var is not None:
+        report.ok(rule, text)
+        return
+    nonzero = None
+    for st in pa.loop_fn.body:
+        if st is pa.loop:
+            break
+        if isinstance(st, ast.Assign) and len(st.targets) == 1 and isinstance(st.targets[0], ast.Name) and isinstance(st.value, ast.Constant) \
+                and isinstance(st.value.value, int) and not isinstance(st.value.value, bool) and st.value.value != 0:
+            name = st.targets[0].id
+            if any(isinstance(n, ast.AugAssign) and isinstance(n.target, ast.Name) and n.target.id == name for n in ast.walk(pa.loop)):
+                nonzero = st
+    if nonzero is not None:
+        report.fail(Finding(rule, fname, nonzero, message + ' (the counter starts at {})'.format(nonzero.value.value), line=nonzero.lineno), instance=text)
+        return
+    raise AnalysisError('{}: no local running offset (a counter set to 0 before the item loop and advanced inside it) is recognised'.format(fname))
 
 
 def position_starts_at_zero(report, facts, fname, rule):
     fn = facts.funcs[fname]
     pa = LR.pass_analysis(facts, fname)
-    report.check(pa.pos_var is not None, rule, '{}: offset counting starts at 0'.format(fname),
-                 lambda: Finding(rule, fname, fn, 'the pass has no running offset that starts at 0 and advances with the emitted items', line=fn.lineno))
+    require_offset_from_zero(report, pa, fn, rule, fname, '{}: offset counting starts at 0'.format(fname),
+                             'the pass has no running offset that starts at 0 and advances with the emitted items')
 
 
 def method_return_lin(facts, cls, mname):
@@ -116,11 +151,53 @@ def check_L4(report, facts, rule):
     if m is None:
         raise AnalysisError('anchor vanished: Arithmetic.eval')
     params = [a.arg for a in m.args.args]
-    evals = [n for n in ast.walk(m) if isinstance(n, ast.Call) and dotted(n.func) == 'eval']
-    ok = len(evals) == 1 and len(evals[0].args) == 3 and unparse(evals[0].args[0]) == 'self.expr' and unparse(evals[0].args[2]) == params[2]
-    report.check(ok, rule + '.arith', 'Arithmetic.eval resolves names in the environment it is given',
-                 lambda: Finding(rule + '.arith', 'Arithmetic.eval', evals[0] if evals else m,
-                                 'the arithmetic expression is not evaluated with the given environment as its namespace', line=m.lineno))
+    if len(params) < 3:
+        raise AnalysisError('Arithmetic.eval does not take (position, env, line)')
+    # every builtin eval(...) reached from Arithmetic.eval - directly or through methods of the class the environment is handed
+    # to - must evaluate self.expr with that environment as its namespace
+    found = []          # (call node, verdict True / False / None)
+    seen = set()
+
+    def scan(meth, env_names):
+        key = (meth.name, tuple(sorted(env_names)))
+        if key in seen:
+            return
+        seen.add(key)
+        for n in ast.walk(meth):
+            if not isinstance(n, ast.Call):
+                continue
+            if dotted(n.func) == 'eval':
+                if not n.args or unparse(n.args[0]) != 'self.expr' or n.keywords:
+                    found.append((n, None))
+                    continue
+                ns = n.args[2] if len(n.args) == 3 else None
+                if isinstance(ns, ast.Name) and ns.id in env_names:
+                    found.append((n, True))
+                elif ns is None or not any(isinstance(x, ast.Name) and x.id in env_names for x in ast.walk(ns)):
+                    found.append((n, False))      # names are resolved in something that is not the environment given
+                else:
+                    found.append((n, None))       # derived from the environment in a way that is not followed
+            elif isinstance(n.func, ast.Attribute) and isinstance(n.func.value, ast.Name) and n.func.value.id == 'self' and n.func.attr in ci.methods:
+                callee = ci.methods[n.func.attr]
+                cparams = [a.arg for a in callee.args.args][1:]
+                passed = set()
+                for cp, a in zip(cparams, n.args):
+                    if isinstance(a, ast.Name) and a.id in env_names:
+                        passed.add(cp)
+                for kw in n.keywords:
+                    if kw.arg and isinstance(kw.value, ast.Name) and kw.value.id in env_names:
+                        passed.add(kw.arg)
+                scan(callee, passed)
+    scan(m, {params[2]})
+    if not found:
+        raise AnalysisError('Arithmetic.eval: no eval(self.expr, ..) is reached from it: how names are resolved is not understood')
+    if any(v is None for _, v in found) and not any(v is False for _, v in found):
+        raise AnalysisError('Arithmetic.eval: the namespace of `{}` is not followed back to the environment parameter'.format(
+            unparse(next(n for n, v in found if v is None))[:80]))
+    bad = [n for n, v in found if v is False]
+    report.check(not bad, rule + '.arith', 'Arithmetic.eval resolves names in the environment it is given',
+                 lambda: Finding(rule + '.arith', 'Arithmetic.eval', bad[0],
+                                 'the arithmetic expression is not evaluated with the given environment as its namespace', line=bad[0].lineno))
 
 
 def check_L5(report, facts, rule):
